@@ -26,3 +26,8 @@ package config
 //@   pure
 //@   ensures uf("trustedDir", bool, result)
 //@ end
+
+//@ func IsDebugMode
+//@   assumed
+//@   pure
+//@ end
